@@ -23,9 +23,15 @@ type LLine struct {
 	Notation bool   `json:"notation,omitempty"`
 	// Directive: rendered as "//"+Text without the blank (e.g. "go:generate …"); never part of the output
 	Directive bool `json:"directive,omitempty"`
+	// Block: the whole "/* ... */" text of a block comment standing in the comment group (Text is unused); interior
+	// lines carry their own indentation. Never a notation: notations are line comments.
+	Block string `json:"block,omitempty"`
 }
 
 func (l LLine) render() string {
+	if l.Block != "" {
+		return l.Block
+	}
 	if l.Directive {
 		return "//" + l.Text
 	}
@@ -52,6 +58,10 @@ type LIface struct {
 	GoGenerate bool      `json:"go_generate,omitempty"`
 	Methods    []LMethod `json:"methods"`
 	BlockDoc   string    `json:"block_doc,omitempty"` // a /* ... */ doc comment instead of line comments (look-alike carrier)
+	// Embed: name of an unmarked interface of the same file that this interface embeds; EmbedMethods are that
+	// interface's methods. They belong to the method set of the converter interface: one function each.
+	Embed        string    `json:"embed,omitempty"`
+	EmbedMethods []LMethod `json:"embed_methods,omitempty"`
 }
 
 // LItem is one top-level item.
@@ -89,6 +99,9 @@ func renderIface(sb *strings.Builder, it *LIface, skeleton bool) {
 		sb.WriteString("// " + l.Text + "\n")
 	}
 	fmt.Fprintf(sb, "type %s interface {\n", it.Name)
+	if it.Embed != "" {
+		sb.WriteString("\t" + it.Embed + "\n")
+	}
 	for _, m := range it.Methods {
 		if m.BlankBefore {
 			sb.WriteString("\n")
@@ -160,13 +173,7 @@ func (f *LFile) render(skeleton bool) string {
 		case "decl", "comment":
 			text := it.Text
 			if skeleton && strings.Contains(text, "//go:generate") {
-				var keep []string
-				for _, ln := range strings.Split(text, "\n") {
-					if !strings.HasPrefix(strings.TrimSpace(ln), "//go:generate") {
-						keep = append(keep, ln)
-					}
-				}
-				text = strings.Join(keep, "\n")
+				text = stripGenerateComments(text)
 			}
 			sb.WriteString(text)
 			if !strings.HasSuffix(text, "\n") {
@@ -188,6 +195,32 @@ func (f *LFile) render(skeleton bool) string {
 		}
 	}
 	return sb.String()
+}
+
+// stripGenerateComments removes the lines of a declaration's text that are go:generate COMMENTS. A line of a raw string
+// literal that looks like one is data and stays.
+func stripGenerateComments(text string) string {
+	fset := token.NewFileSet()
+	file := fset.AddFile("decl.go", -1, len(text))
+	var sc scanner.Scanner
+	sc.Init(file, []byte(text), func(token.Position, string) {}, scanner.ScanComments)
+	drop := map[int]bool{} // 1-based line numbers
+	for {
+		pos, tok, lit := sc.Scan()
+		if tok == token.EOF {
+			break
+		}
+		if tok == token.COMMENT && strings.HasPrefix(lit, "//go:generate") {
+			drop[file.Line(pos)] = true
+		}
+	}
+	var keep []string
+	for i, ln := range strings.Split(text, "\n") {
+		if !drop[i+1] {
+			keep = append(keep, ln)
+		}
+	}
+	return strings.Join(keep, "\n")
 }
 
 // Render renders the file as the user wrote it.
@@ -450,12 +483,55 @@ var lDeclTemplates = []struct {
 	{"type FieldDir%[1]d struct {\n\t//go:generate echo the only comment line of a struct field\n\tA int\n\t// B keeps its doc.\n\t//go:generate echo below a doc line of a field\n\tB int\n}", []string{"FieldDir%d"}, "go-generate-on-struct-field"},
 	{"var (\n\t//go:generate echo the only comment line of a value spec\n\tSpecDir%[1]d = %[1]d\n)\n\ntype (\n\t//go:generate echo the only comment line of a type spec\n\tTypeDir%[1]d int\n)\n\nconst (\n\t//go:generate echo the only comment line of a const spec\n\tConstDir%[1]d = %[1]d\n)", []string{"SpecDir%d", "TypeDir%d", "ConstDir%d"}, "go-generate-on-grouped-spec"},
 	{"func BodyDir%[1]d() int {\n\t//go:generate echo inside a function body\n\treturn %[1]d\n}", []string{"BodyDir%d"}, "go-generate-in-function-body"},
+	{"// Raw%[1]d is a raw string whose lines look like directives: they are data, not comments.\nconst Raw%[1]d = `first line of %[1]d\n//go:generate echo inside a raw string\n  //go:build convergen\n// +build convergen\n\t// :convergen\n// :skip A\nlast line`", []string{"Raw%d"}, "raw-string-with-directive-looking-lines"},
+	{"var RawTag%[1]d = struct {\n\tA int `json:\"a\"`\n}{}\n\nvar RawList%[1]d = []string{`\n//go:generate x\n`, \"//go:build convergen\"}", []string{"RawTag%d", "RawList%d"}, "raw-string-with-directive-looking-lines"},
 	{"//go:generate stringer -type=Gen%[1]d\n// Gen%[1]d has a go:generate line at the start of its doc comment.\ntype Gen%[1]d int", []string{"Gen%d"}, "go-generate-in-doc:first"},
 	{"// Mid%[1]d has a go:generate line in the middle of its doc comment.\n//go:generate stringer -type=Mid%[1]d\n// The doc comment goes on.\ntype Mid%[1]d int", []string{"Mid%d"}, "go-generate-in-doc:middle"},
 	{"// End%[1]d has a go:generate line at the end of its doc comment.\n//go:generate stringer -type=End%[1]d\ntype End%[1]d int", []string{"End%d"}, "go-generate-in-doc:last"},
 }
 
 var lMethodNotations = []string{":typecast", ":stringer", ":getter", ":case:off", ":skip A", ":skip /^B/", ":map B B", ":literal A 1", ":style arg", ":match none", ":typecast:off"}
+
+// lBlockDocs: block comments inside a method's comment group (%[1]s = method name). They are doc text like any other
+// non-notation line; gofmt decides their final shape (NormaliseDoc), interior indentation is part of the text.
+var lBlockDocs = []string{
+	"/* one-line block doc of %[1]s */",
+	"/*\n\t   %[1]s copies (block doc):\n\t       an indented example line\n\t           and a deeper one\n\t   last line of the block\n\t*/",
+	"/* first line of the block doc of %[1]s\n\t     second line, indented   \n\t*/",
+	"/*\n\t%[1]s:\n\t  - item one\n\t  - item two\n\n\t\tcode line\n\t*/",
+}
+
+// NormaliseDoc returns the comments of a doc comment the way gofmt prints them above a top-level function.
+func NormaliseDoc(comments []string) []string {
+	if len(comments) == 0 {
+		return nil
+	}
+	// gofmt is not idempotent on block comments in doc position (the first pass re-indents, the next one reformats the
+	// doc text), and the tool formats more than once: compare fixpoints
+	src := "package p\n\n" + strings.Join(comments, "\n") + "\nfunc f() {}\n"
+	for i := 0; i < 5; i++ {
+		next := Gofmt(src)
+		if next == src {
+			break
+		}
+		src = next
+	}
+	fset := token.NewFileSet()
+	f, err := parser.ParseFile(fset, "doc.go", src, parser.ParseComments)
+	if err != nil {
+		return comments
+	}
+	for _, d := range f.Decls {
+		if fd, ok := d.(*ast.FuncDecl); ok && fd.Doc != nil {
+			var out []string
+			for _, c := range fd.Doc.List {
+				out = append(out, c.Text)
+			}
+			return out
+		}
+	}
+	return nil
+}
 
 // LayoutProfile selects what the layout generator varies.
 type LayoutProfile struct {
@@ -539,7 +615,11 @@ func GenLayoutIface(t *rapid.T, pf LayoutProfile, idx int, methodSeq *int, force
 					}
 					m.Lines = append(m.Lines, LLine{Text: n, Notation: true})
 				} else if pf.Comments {
-					m.Lines = append(m.Lines, LLine{Text: fmt.Sprintf("%s doc line %d (costs US$5, $1 ${x} $$ 100%%d).", m.Name, i)})
+					if rapid.IntRange(0, 5).Draw(t, "blockDoc") == 0 {
+						m.Lines = append(m.Lines, LLine{Block: fmt.Sprintf(rapid.SampledFrom(lBlockDocs).Draw(t, "blockDocShape"), m.Name)})
+					} else {
+						m.Lines = append(m.Lines, LLine{Text: fmt.Sprintf("%s doc line %d (costs US$5, $1 ${x} $$ 100%%d).", m.Name, i)})
+					}
 				}
 			}
 			if pf.SameNames && rapid.IntRange(0, 2).Draw(t, "recv") == 0 && !strings.Contains(sg.Sig, "src ") {
@@ -613,6 +693,26 @@ func GenLayoutFile(t *rapid.T, pf LayoutProfile) *LFile {
 				}
 				namedUsed = true
 			}
+			if pf.Unmarked && rapid.IntRange(0, 5).Draw(t, "embedBase") == 0 {
+				// the converter interface embeds an unmarked interface of the file: its methods are methods of the converter
+				// interface (one function each), the embedded interface itself is an ordinary declaration that stays
+				it.Embed = fmt.Sprintf("Base%d", i)
+				nb := rapid.IntRange(1, 2).Draw(t, "embedMethods")
+				var body strings.Builder
+				for j := 0; j < nb; j++ {
+					bm := LMethod{Name: fmt.Sprintf("FromBase%02d", seq), Sig: "(*LInner) *LInner2"}
+					seq++
+					it.EmbedMethods = append(it.EmbedMethods, bm)
+					body.WriteString("\t" + bm.Name + bm.Sig + "\n")
+				}
+				base := LItem{Kind: "decl", Text: fmt.Sprintf("type %s interface {\n%s}", it.Embed, body.String()), Names: []string{it.Embed}}
+				if rapid.Bool().Draw(t, "embedBaseFirst") {
+					f.Items = append(f.Items, base, LItem{Kind: "iface", Iface: it})
+				} else {
+					f.Items = append(f.Items, LItem{Kind: "iface", Iface: it}, base)
+				}
+				continue
+			}
 			f.Items = append(f.Items, LItem{Kind: "iface", Iface: it})
 			continue
 		}
@@ -672,6 +772,9 @@ func (f *LFile) WantFuncKeys() map[string]int {
 	out := map[string]int{}
 	for k, it := range f.Converters() {
 		for _, m := range it.Methods {
+			out[m.RecvType+"."+m.Name] = k
+		}
+		for _, m := range it.EmbedMethods {
 			out[m.RecvType+"."+m.Name] = k
 		}
 	}
